@@ -90,8 +90,16 @@ def _corpus_chunk(items):
         except Exception:  # noqa
             continue
         toks = [t for t in toks if t.raw != ""]
+        def ends_line_comment(i):
+            # the newline that terminates a -- comment is part of the comment: replacing it would comment out the next line
+            k = i - 1
+            while k >= 0 and toks[k].type != "newline":
+                if toks[k].raw.startswith(("--", "#", "//")):
+                    return True
+                k -= 1
+            return False
         ws = [i for i, t in enumerate(toks) if t.type in ("whitespace", "newline") and 0 < i < len(toks) - 1
-              and toks[i - 1].raw != "." and toks[i + 1].raw != "."]
+              and toks[i - 1].raw != "." and toks[i + 1].raw != "." and not (t.type == "newline" and ends_line_comment(i))]
         variants = []
         if ws:
             for i in rnd.sample(ws, min(len(ws), it["n"])):
